@@ -35,7 +35,8 @@ PATTERNS = [
     ("n", "class", {}), ("for", "a", {}), ("n", "a-b", {}), ("n", "x/y", {}), ("N", "A", {}),
     ("n", "a", {"literal": True}), ("n", "a", {"unknown_field": True}), ("n", "a", {"unknown_nest": True}),
     ("n", "a", {"base_same_as_field": True}), ("n", "n", {}),
-    ("n", "a.b", {"sibling": "b"}), ("my n", "x.y", {"sibling": "y"}),      # a field name holding a dot next to a field named like its last part
+    ("n", "a.b", {"sibling": "b"}), ("my n", "x.y", {"sibling": "y"}),
+    ("n", "a b-c", {"sibling": "a_b-c"}),       # two fields of one nest whose cleaned identifiers coincide      # a field name holding a dot next to a field named like its last part
 ]
 SPELLINGS = ["plain", "bt_both", "bt_field", "bt_nest", "bt_whole"]
 
@@ -227,7 +228,7 @@ def generate(ctx):
     cases = []
     combos = [(p, s, o) for p in range(len(PATTERNS)) for s in SPELLINGS for o in OPS]
     rng.shuffle(combos)
-    budget = ctx.budget(260, len(combos))
+    budget = ctx.budget(len(combos), len(combos))      # the whole space is small: every tier runs all of it
     # make sure every (pattern, op) and every (spelling, op) pair appears in the quick tier
     combos.sort(key=lambda c: 0)
     for (pi, how, op) in combos[:budget]:
